@@ -76,3 +76,60 @@ Fixpoint fold_res {S A} (f : S -> A -> res S) (l : list A) (s : S) : res S :=
   end.
 
 Definition node_len_n (v : version) : N := N.of_nat (node_len v).
+
+(* ---- for src/message.rs ---- *)
+
+(* std::io::Cursor<&[u8]>: the data and a position *)
+Definition cursor := (bytes * N)%type.
+Definition cur_new (b : bytes) : cursor := (b, 0).
+Definition cur_rest (c : cursor) : bytes := skipn (N.to_nat (snd c)) (fst c).
+
+(* msg.read_u32::<LittleEndian>()? : io::Error (UnexpectedEof) converts to Error::EncodingFailure *)
+Definition cur_read_u32 (c : cursor) : res (N * cursor) :=
+  let r := cur_rest c in
+  if (length r <? 4)%nat then Err EncodingFailure else Ok (rd32 r, (fst c, snd c + 4)).
+
+(* msg.read_exact(&mut [0u8; n]): None on a short read *)
+Definition cur_read_exact (c : cursor) (n : nat) : option (bytes * cursor) :=
+  let r := cur_rest c in
+  if (length r <? n)%nat then None else Some (firstn n r, (fst c, snd c + N.of_nat n)).
+
+(* msg.read_to_end(&mut v): appends what is left, the position moves by that much *)
+Definition cur_read_to_end (c : cursor) : bytes * cursor :=
+  let r := cur_rest c in (r, (fst c, snd c + lenN r)).
+
+(* Tag::from_wire: Err(InvalidTag) outside the table *)
+Definition tag_from_wire_r (w : bytes) : res tag :=
+  match tag_of_wire w with Some t => Ok t | None => Err InvalidTag end.
+
+Definition tag_lt (a b : tag) : bool := tag_le a b && negb (tag_eqb a b).
+
+(* Vec::last *)
+Definition last_opt {A} (l : list A) : option A :=
+  match rev l with x :: _ => Some x | [] => None end.
+
+(* a..b as the numbers it iterates over *)
+Definition range_n (a b : N) : list N := map (fun i => a + N.of_nat i) (seq 0 (N.to_nat (b - a))).
+
+(* v[i] on a vector: panics out of range *)
+Definition vec_idx_p {A} (site : nat) (l : list A) (i : N) : res A :=
+  match nth_error l (N.to_nat i) with Some x => Ok x | None => Panic site end.
+
+(* &v[a..b] on a vector of anything *)
+Definition slice_l {A} (site : nat) (l : list A) (a b : N) : res (list A) :=
+  if (b <? a) || (lenN l <? b) then Panic site
+  else Ok (firstn (N.to_nat (b - a)) (skipn (N.to_nat a) l)).
+
+(* iter().enumerate() *)
+Definition enumerate_n {A} (l : list A) : list (N * A) := combine (map N.of_nat (seq 0 (length l))) l.
+
+(* values.iter().map(|v| v.len()).sum() *)
+Definition sum_len (l : list bytes) : N := fold_right (fun v a => lenN v + a) 0 l.
+
+(* string and char literals as bytes *)
+Definition str_bytes (s : String.string) : bytes := String.list_byte_of_string s.
+
+(* " ".repeat(n) *)
+Fixpoint repeat_bytes_nat (s : bytes) (n : nat) : bytes :=
+  match n with O => [] | S k => s ++ repeat_bytes_nat s k end.
+Definition repeat_bytes (s : bytes) (n : N) : bytes := repeat_bytes_nat s (N.to_nat n).
